@@ -36,6 +36,7 @@ use crate::canvas;
 use crate::canvas::Canvas;
 use crate::errors::*;
 use crate::plane::{HitPolicyPlacement, Plane, RuleNumbersPlacement};
+use crate::rect::Rect;
 use dmntk_common::Result;
 use dmntk_model::model::{DecisionTableOrientation, HitPolicy};
 
@@ -146,35 +147,34 @@ impl Recognizer {
     let r = self.plane.horz_input_clause_rect()?;
     // assign the number of recognized input clauses
     self.input_clause_count = r.width();
-    // detect if the input values are present in decision table
-    let input_values_present = match r.height() {
-      1 => {
-        // by single row there are no input values, only input expressions
-        false
-      }
-      2 => {
-        // by two rows when regions in each column are the same, then there are no input/output values
-        // otherwise the are input/output values provided
-        !self.plane.equal_regions_in_columns(&r)?
-      }
+    // detect the rows of the header holding the allowed values: the last row and the row above it
+    let values_rows = match r.height() {
+      // by single row there are no input values, only input expressions
+      1 => None,
+      2 => Some((r.top, r.top + 1)),
       3 => {
-        // by three rows there must be always input/output values provided, just checking if the
-        // two upper rows contains the same regions - input expressions
-        if !self.plane.unique_regions_in_columns(&r.inc_top(1))? {
+        // by three rows every input expression spans the two upper rows
+        if !self.plane.equal_regions_in_columns(&Rect::new(r.left, r.top, r.right, r.top + 2))? {
           return Err(invalid_input_expressions());
         }
-        true
+        Some((r.top + 1, r.top + 2))
       }
       _ => return Err(too_many_rows_in_input_clause()),
+    };
+    // the input values are present, when in some column the cell in the last row of the header
+    // is not the continuation of the cell above it
+    let input_values_present = match values_rows {
+      Some((above, last)) => !self.plane.equal_regions_in_columns(&Rect::new(r.left, above, r.right, last + 1))?,
+      None => false,
     };
     // retrieve input expressions from plane
     for col in r.left..r.right {
       self.input_expressions.push(self.plane.region_text(0, col)?);
     }
     // retrieve input values from plane
-    if input_values_present {
+    if let (true, Some((above, last))) = (input_values_present, values_rows) {
       for col in r.left..r.right {
-        self.input_values.push(self.plane.region_text(r.bottom - 1, col)?);
+        self.input_values.push(self.allowed_values_text(above, last, col)?);
       }
     }
     // retrieve input entries from plane
@@ -202,13 +202,10 @@ impl Recognizer {
             self.output_label = Some(self.plane.region_text(r.top, r.left)?);
           }
           2 => {
-            if input_values_present && !self.plane.equal_regions(&r)? {
-              // output label and output values
-              self.output_label = Some(self.plane.region_text(r.top, r.left)?);
+            // output label, and output values when the cell below the label is a separate region
+            self.output_label = Some(self.plane.region_text(r.top, r.left)?);
+            if !self.plane.equal_regions(&r)? {
               self.output_values.push(self.plane.region_text(r.top + 1, r.left)?)
-            } else {
-              // invalid output clause
-              return Err(plane_invalid_output_clause());
             }
           }
           _ => return Err(too_many_rows_in_input_clause()),
@@ -224,30 +221,34 @@ impl Recognizer {
             }
           }
           2 => {
-            if input_values_present {
+            if self.plane.equal_regions(&Rect::new(r.left, r.top, r.right, r.top + 1))? {
+              // the first row is a single region: output label and component names
+              self.output_label = Some(self.plane.region_text(r.top, r.left)?);
+              for col in r.left..r.right {
+                self.output_components.push(self.plane.region_text(r.top + 1, col)?);
+              }
+            } else {
               // component names and output values
               for col in r.left..r.right {
                 self.output_components.push(self.plane.region_text(r.top, col)?);
               }
               for col in r.left..r.right {
-                self.output_values.push(self.plane.region_text(r.top + 1, col)?);
-              }
-            } else {
-              // output label and component names
-              self.output_label = Some(self.plane.region_text(r.top, r.left)?);
-              for col in r.left..r.right {
-                self.output_components.push(self.plane.region_text(r.top + 1, col)?);
+                self.output_values.push(self.allowed_values_text(r.top, r.top + 1, col)?);
               }
             }
           }
           3 => {
             // output label, component names and output values
+            if !self.plane.equal_regions(&Rect::new(r.left, r.top, r.right, r.top + 1))? {
+              // the output label must be a single region over all the components
+              return Err(plane_invalid_output_clause());
+            }
             self.output_label = Some(self.plane.region_text(r.top, r.left)?);
             for col in r.left..r.right {
               self.output_components.push(self.plane.region_text(r.top + 1, col)?);
             }
             for col in r.left..r.right {
-              self.output_values.push(self.plane.region_text(r.top + 2, col)?);
+              self.output_values.push(self.allowed_values_text(r.top + 1, r.top + 2, col)?);
             }
           }
           _ => return Err(too_many_rows_in_input_clause()),
@@ -278,6 +279,17 @@ impl Recognizer {
       }
     }
     Ok(())
+  }
+
+  /// Returns the text of the cell with allowed values in the specified column. When this cell is
+  /// the continuation of the cell above it (the same region), no allowed values are drawn
+  /// and the returned text is empty.
+  fn allowed_values_text(&self, above: usize, row: usize, col: usize) -> Result<String> {
+    if self.plane.region_number(row, col)? == self.plane.region_number(above, col)? {
+      Ok(String::new())
+    } else {
+      self.plane.region_text(row, col)
+    }
   }
 
   /// Recognizes decision table components from crosstab oriented plane.
